@@ -2,7 +2,7 @@
   DDProofs.DumpProofs — dump / load round trips on file *contents* (C12).
 
   The specifications of `find_or_add` and `add_var` are taken as explicit hypotheses
-  (`FoaSpec`, `AddVarSpec`) so that they can be discharged by the core proofs;
+  (`DmpFoaSpec`, `AddVarSpec`) so that they can be discharged by the core proofs;
   everything else is proved here.
 -/
 import DD.Dump
@@ -13,7 +13,7 @@ namespace DD
 /-! ### hypotheses to be discharged by the core proofs -/
 
 /-- the specification of `find_or_add` the loaders need -/
-def FoaSpec : Prop :=
+def DmpFoaSpec : Prop :=
   ∀ (m : Mgr) (i : Nat) (v w : Int), Inv m → i < m.nvars → m.tbl.Mem v → m.tbl.Mem w →
     i < m.tbl.levelOf v → i < m.tbl.levelOf w →
     ∃ r m', findOrAddCore i v w m = (.ok r, m') ∧ Inv m' ∧ Ext m.tbl m'.tbl ∧ m'.tbl.Mem r ∧
@@ -22,43 +22,43 @@ def FoaSpec : Prop :=
 
 /-! ### fields that `find_or_add` and the reference counters never touch -/
 
-structure Frame (m m' : Mgr) : Prop where
+structure DmpFrame (m m' : Mgr) : Prop where
   ctx : m'.ctx = m.ctx
   vars : m'.tbl.vars = m.tbl.vars
   l2v : m'.tbl.l2v = m.tbl.l2v
   lastLen : m'.lastLen = m.lastLen
   roots : m'.roots = m.roots
 
-theorem Frame.refl (m : Mgr) : Frame m m := ⟨rfl, rfl, rfl, rfl, rfl⟩
-theorem Frame.trans {a b c : Mgr} (h1 : Frame a b) (h2 : Frame b c) : Frame a c :=
+theorem DmpFrame.refl (m : Mgr) : DmpFrame m m := ⟨rfl, rfl, rfl, rfl, rfl⟩
+theorem DmpFrame.trans {a b c : Mgr} (h1 : DmpFrame a b) (h2 : DmpFrame b c) : DmpFrame a c :=
   ⟨h2.ctx.trans h1.ctx, h2.vars.trans h1.vars, h2.l2v.trans h1.l2v, h2.lastLen.trans h1.lastLen,
    h2.roots.trans h1.roots⟩
 
-theorem incref_frame (u : Int) (m : Mgr) : Frame m (incref u m).2 := by
+theorem dmp_incref_frame (u : Int) (m : Mgr) : DmpFrame m (incref u m).2 := by
   unfold incref; split <;> exact ⟨rfl, rfl, rfl, rfl, rfl⟩
 
-theorem incref_frame' {u : Int} {m m' : Mgr} {r} (h : incref u m = (r, m')) : Frame m m' := by
-  have := incref_frame u m; rw [h] at this; exact this
+theorem incref_frame' {u : Int} {m m' : Mgr} {r} (h : incref u m = (r, m')) : DmpFrame m m' := by
+  have := dmp_incref_frame u m; rw [h] at this; exact this
 
-theorem findOrAddCore_frame (i : Nat) (v w : Int) (m : Mgr) : Frame m (findOrAddCore i v w m).2 := by
+theorem dmp_findOrAddCore_frame (i : Nat) (v w : Int) (m : Mgr) : DmpFrame m (findOrAddCore i v w m).2 := by
   unfold findOrAddCore
   dsimp only
   repeat' split
   all_goals first
-    | exact Frame.refl _
+    | exact DmpFrame.refl _
     | (rename_i _ _ _ h1 _ _ _ h2
-       refine Frame.trans (Frame.trans ?_ (incref_frame' h1)) (incref_frame' h2)
+       refine DmpFrame.trans (DmpFrame.trans ?_ (incref_frame' h1)) (incref_frame' h2)
        exact ⟨rfl, rfl, rfl, rfl, rfl⟩)
     | (rename_i _ _ _ h1
-       refine Frame.trans ?_ (incref_frame' h1)
+       refine DmpFrame.trans ?_ (incref_frame' h1)
        exact ⟨rfl, rfl, rfl, rfl, rfl⟩)
 
 theorem findOrAddCore_frame' {i : Nat} {v w : Int} {m m' : Mgr} {r}
-    (h : findOrAddCore i v w m = (r, m')) : Frame m m' := by
-  have := findOrAddCore_frame i v w m; rw [h] at this; exact this
+    (h : findOrAddCore i v w m = (r, m')) : DmpFrame m m' := by
+  have := dmp_findOrAddCore_frame i v w m; rw [h] at this; exact this
 
 /-- outside a reordering context `find_or_add` is its core -/
-theorem findOrAdd_eq_core (m : Mgr) (j : Nat) (p q : Int) (hc : m.ctx = false) :
+theorem dmp_findOrAdd_eq_core (m : Mgr) (j : Nat) (p q : Int) (hc : m.ctx = false) :
     findOrAdd (j : Int) p q m = findOrAddCore j p q m := by
   have h : ¬ ((j : Int) < 0) := by omega
   simp [findOrAdd, bind, M.bind', M.get, hc, h]
@@ -222,16 +222,16 @@ theorem evalL_term (succ lm) (k : Nat) (u : Int) (a : Asg) (h : u.natAbs = 1) :
     evalL succ lm (k+1) u a = decide (0 < u) := by
   rw [evalL]; simp [h]
 
-theorem den_term (t : Tbl) (u : Int) (a : Asg) (h : u.natAbs = 1) : den t u a = decide (0 < u) := by
+theorem dmp_den_term (t : Tbl) (u : Int) (a : Asg) (h : u.natAbs = 1) : den t u a = decide (0 < u) := by
   rcases abs_one h with h | h <;> subst h
   · simp [den_one]
   · rw [den_neg_one]; simp
 
-theorem loadNodeF_spec (hF : FoaSpec) {succ : List PEntry} {lm : List (Nat × Nat)} {n N : Nat}
+theorem loadNodeF_spec (hF : DmpFoaSpec) {succ : List PEntry} {lm : List (Nat × Nat)} {n N : Nat}
     (hs : SuccWF succ n) (hl : LMOK succ lm N) :
     ∀ fuel u umap m, Inv m → m.ctx = false → m.nvars = N → UOK succ lm n N m.tbl umap → FRef succ u →
       n + 1 ≤ fuel + flevel succ n u →
-      ∃ r umap' m', loadNodeF succ lm fuel u umap m = (.ok (r, umap'), m') ∧ Inv m' ∧ Frame m m' ∧
+      ∃ r umap' m', loadNodeF succ lm fuel u umap m = (.ok (r, umap'), m') ∧ Inv m' ∧ DmpFrame m m' ∧
         Ext m.tbl m'.tbl ∧ UOK succ lm n N m'.tbl umap' ∧
         (∀ k, umap.contains k = true → umap'.contains k = true) ∧
         m'.tbl.Mem r ∧ tlevel succ lm N u ≤ m'.tbl.levelOf r ∧ (0 < r ↔ 0 < u) ∧
@@ -249,9 +249,9 @@ theorem loadNodeF_spec (hF : FoaSpec) {succ : List PEntry} {lm : List (Nat × Na
     dsimp only
     by_cases h1 : u.natAbs = 1
     · rw [if_pos h1]
-      refine ⟨u, umap, m, rfl, hI, Frame.refl _, Ext.refl _, hU, fun _ h => h, Or.inl h1, ?_, Iff.rfl, ?_, ?_⟩
+      refine ⟨u, umap, m, rfl, hI, DmpFrame.refl _, Ext.refl _, hU, fun _ h => h, Or.inl h1, ?_, Iff.rfl, ?_, ?_⟩
       · rw [levelOf_term _ _ h1]; simp [tlevel, h1, ← hN, Mgr.nvars]
-      · intro a; rw [den_term _ _ _ h1, evalL_term _ _ _ _ _ h1]
+      · intro a; rw [dmp_den_term _ _ _ h1, evalL_term _ _ _ _ _ h1]
       · intro h; exact absurd h1 h
     · rw [if_neg h1]
       by_cases hmem : umap.contains u = true
@@ -266,7 +266,7 @@ theorem loadNodeF_spec (hF : FoaSpec) {succ : List PEntry} {lm : List (Nat × Na
         have hr0 : ¬ r ≤ 0 := by omega
         have hu0 : ¬ u < 0 := by omega
         rw [if_neg hr0, if_neg hu0]
-        refine ⟨r, umap, m, rfl, hI, Frame.refl _, Ext.refl _, hU, fun _ h => h, rm, rl, ?_, rd, ?_⟩
+        refine ⟨r, umap, m, rfl, hI, DmpFrame.refl _, Ext.refl _, hU, fun _ h => h, rm, rl, ?_, rd, ?_⟩
         · constructor <;> intro <;> omega
         · intro _; exact hmem
       · rw [if_neg hmem]
@@ -291,7 +291,7 @@ theorem loadNodeF_spec (hF : FoaSpec) {succ : List PEntry} {lm : List (Nat × Na
         simp only
         have hc2 : m2.ctx = false := by rw [F2.ctx]; exact hc1
         have hN2 : m2.nvars = N := by rw [← hN1]; exact X2.nvars.symm
-        rw [findOrAdd_eq_core _ _ _ _ hc2]
+        rw [dmp_findOrAdd_eq_core _ _ _ _ hc2]
         have Mp2 : m2.tbl.Mem p := X2.mem Mp
         have jp : j < m2.tbl.levelOf p := by
           rw [X2.levelOf Mp]
@@ -301,7 +301,7 @@ theorem loadNodeF_spec (hF : FoaSpec) {succ : List PEntry} {lm : List (Nat × Na
         obtain ⟨r, m3, e3, I3, X3, Mr, Lr, Dr⟩ := hF m2 j p q I2 (by rw [hN2]; exact hjN) Mp2 Mq jp jq
         rw [e3]
         simp only
-        have F3 : Frame m2 m3 := findOrAddCore_frame' e3
+        have F3 : DmpFrame m2 m3 := findOrAddCore_frame' e3
         have hqpos : 0 < q := Sq.mpr hwpos
         have hrpos : 0 < r := by
           have h1' := den_alltrue m3.tbl I3.wf.toWF m3.tbl.nvars r Mr (by omega)
@@ -374,11 +374,11 @@ theorem PEntry.find_id {succ : List PEntry} {k : Nat} {e : PEntry} (h : PEntry.f
   have := List.find?_some h
   simpa using this
 
-theorem loadAll_spec (hF : FoaSpec) {succ : List PEntry} {lm : List (Nat × Nat)} {n N fuel : Nat}
+theorem loadAll_spec (hF : DmpFoaSpec) {succ : List PEntry} {lm : List (Nat × Nat)} {n N fuel : Nat}
     (hs : SuccWF succ n) (hl : LMOK succ lm N) (hfuel : n + 1 ≤ fuel) :
     ∀ (es : List PEntry) umap m, (∀ e ∈ es, e ∈ succ) → Inv m → m.ctx = false → m.nvars = N →
       UOK succ lm n N m.tbl umap →
-      ∃ umap' m', loadAll succ lm fuel es umap m = (.ok umap', m') ∧ Inv m' ∧ Frame m m' ∧
+      ∃ umap' m', loadAll succ lm fuel es umap m = (.ok umap', m') ∧ Inv m' ∧ DmpFrame m m' ∧
         Ext m.tbl m'.tbl ∧ UOK succ lm n N m'.tbl umap' ∧
         (∀ k, umap.contains k = true → umap'.contains k = true) ∧
         (∀ e ∈ es, e.id ≠ 1 → umap'.contains (e.id : Int) = true) := by
@@ -386,7 +386,7 @@ theorem loadAll_spec (hF : FoaSpec) {succ : List PEntry} {lm : List (Nat × Nat)
   induction es with
   | nil =>
     intro umap m _ hI _ _ hU
-    exact ⟨umap, m, rfl, hI, Frame.refl _, Ext.refl _, hU, fun _ h => h, by simp⟩
+    exact ⟨umap, m, rfl, hI, DmpFrame.refl _, Ext.refl _, hU, fun _ h => h, by simp⟩
   | cons e rest ih =>
     intro umap m hsub hI hc hN hU
     rw [loadAll]
@@ -475,11 +475,11 @@ theorem UOK.empty (succ lm n N) (t : Tbl) : UOK succ lm n N t {} := by
 
 /-- the second half of `load`: with the variables declared and a monotone level map, the
 nodes are rebuilt and the roots denote (over the target's levels) what the file says -/
-theorem loadPickle_core (hF : FoaSpec) (f : PickleFile) (levels : Bool) (lm : List (Nat × Nat))
+theorem loadPickle_core (hF : DmpFoaSpec) (f : PickleFile) (levels : Bool) (lm : List (Nat × Nat))
     (m m1 : Mgr) (hv : loadVars levels f.vars.length f.vars [] m = (.ok lm, m1))
     (hI : Inv m1) (hc : m1.ctx = false) (hs : SuccWF f.succ f.vars.length)
     (hl : LMOK f.succ lm m1.nvars) (hr : RootsOK f) :
-    ∃ roots' m', loadPickle f levels m = (.ok roots', m') ∧ Inv m' ∧ Frame m1 m' ∧
+    ∃ roots' m', loadPickle f levels m = (.ok roots', m') ∧ Inv m' ∧ DmpFrame m1 m' ∧
       Ext m1.tbl m'.tbl ∧
       RootsRel (fun u r => m'.tbl.Mem r ∧
         ∀ a, den m'.tbl r a = evalL f.succ lm (f.vars.length + 1) u a) f.roots roots' := by
@@ -560,7 +560,7 @@ theorem addVar_cases {var : String} {lvl : Option Int} {m m' : Mgr} {j : Nat}
         refine Or.inr ⟨rfl, hl, by omega, h2.symm⟩
 
 /-- `vars` and `_level_to_var` are inverse of each other -/
-def VarsBij (t : Tbl) : Prop := ∀ (v : String) (l : Nat), t.vars[v]? = some l ↔ t.l2v[l]? = some v
+def DmpVarsBij (t : Tbl) : Prop := ∀ (v : String) (l : Nat), t.vars[v]? = some l ↔ t.l2v[l]? = some v
 
 /-- `add_var` keeps the manager invariant (part of C14's `addVar_spec`) -/
 def AddVarInv : Prop :=
@@ -568,8 +568,8 @@ def AddVarInv : Prop :=
     Inv m → addVar var lvl m = (.ok j, m') → Inv m'
 
 theorem addVar_facts {var : String} {lvl : Option Int} {m m' : Mgr} {j : Nat}
-    (h : addVar var lvl m = (.ok j, m')) (hb : VarsBij m.tbl) :
-    VarsBij m'.tbl ∧ m'.tbl.vars[var]? = some j ∧
+    (h : addVar var lvl m = (.ok j, m')) (hb : DmpVarsBij m.tbl) :
+    DmpVarsBij m'.tbl ∧ m'.tbl.vars[var]? = some j ∧
     (∀ (v : String) (l : Nat), m.tbl.vars[v]? = some l → m'.tbl.vars[v]? = some l) ∧ m'.ctx = m.ctx ∧
     m'.tbl.succ = m.tbl.succ ∧ (∀ i : Nat, lvl = some (i : Int) → j = i) := by
   rcases addVar_cases h with ⟨h1, h2, h3⟩ | ⟨h1, h2, h3, h4⟩
@@ -608,8 +608,8 @@ theorem loadVars_spec (J : Mgr → Prop) (levels : Bool) (n : Nat) :
       (∀ (m : Mgr) (var : String) (i : Nat) (j : Nat) (m' : Mgr), (var, i) ∈ vs → J m →
         addVar var (if levels = true then some (i : Int) else none) m = (.ok j, m') → J m') →
       ∀ (lm : List (Nat × Nat)) (m : Mgr) (lm' : List (Nat × Nat)) (m' : Mgr),
-      loadVars levels n vs lm m = (.ok lm', m') → J m → VarsBij m.tbl →
-      J m' ∧ VarsBij m'.tbl ∧ m'.ctx = m.ctx ∧ m'.tbl.succ = m.tbl.succ ∧
+      loadVars levels n vs lm m = (.ok lm', m') → J m → DmpVarsBij m.tbl →
+      J m' ∧ DmpVarsBij m'.tbl ∧ m'.ctx = m.ctx ∧ m'.tbl.succ = m.tbl.succ ∧
       (∀ (v : String) (l : Nat), m.tbl.vars[v]? = some l → m'.tbl.vars[v]? = some l) ∧
       (∀ i j, lm'.lookup i = some j →
         lm.lookup i = some j ∨ ∃ var, (var, i) ∈ vs ∧ m'.tbl.vars[var]? = some j) ∧
@@ -774,16 +774,16 @@ map is increasing (automatic for `levels=True`), then the load succeeds, the man
 invariant is kept, old nodes are untouched, and the returned container has the shape of the
 file's `roots` with every member denoting — as a function of variable NAMES — what the
 file says. -/
-theorem pickle_load_of_specs (hF : FoaSpec) (J : Mgr → Prop) (f : PickleFile) (levels : Bool)
+theorem pickle_load_of_specs (hF : DmpFoaSpec) (J : Mgr → Prop) (f : PickleFile) (levels : Bool)
     (hA : ∀ (m : Mgr) (var : String) (i : Nat) (j : Nat) (m' : Mgr), (var, i) ∈ f.vars → J m →
       addVar var (if levels = true then some (i : Int) else none) m = (.ok j, m') → J m')
     (hJI : ∀ m, J m → Inv m)
-    (m : Mgr) (hI : J m) (hb : VarsBij m.tbl) (hc : m.ctx = false)
+    (m : Mgr) (hI : J m) (hb : DmpVarsBij m.tbl) (hc : m.ctx = false)
     (hwf : PickleWF f) (hr : RootsOK f)
     (lm : List (Nat × Nat)) (m1 : Mgr)
     (hv : loadVars levels f.vars.length f.vars [] m = (.ok lm, m1))
     (hg : Contig m1.tbl) (hm : levels = false → MonoMap lm) :
-    ∃ roots' m', loadPickle f levels m = (.ok roots', m') ∧ Inv m' ∧ VarsBij m'.tbl ∧
+    ∃ roots' m', loadPickle f levels m = (.ok roots', m') ∧ Inv m' ∧ DmpVarsBij m'.tbl ∧
       m'.ctx = false ∧ (∀ u n, m.tbl.node? u = some n → m'.tbl.node? u = some n) ∧
       RootsRel (fun u r => m'.tbl.Mem r ∧ ∀ α, denBy m'.tbl r α = evalPickle f u α) f.roots roots' := by
   obtain ⟨J1, B1, C1, S1, M1, R1, D1, _, L1⟩ :=
@@ -814,7 +814,7 @@ theorem pickle_load_of_specs (hF : FoaSpec) (J : Mgr → Prop) (f : PickleFile) 
     rcases R1 _ _ hij with h | ⟨v, hv1, hv2⟩
     · simp at h
     · exact ⟨v, hwf.names v i hv1, by rw [F2.l2v]; exact (B1 v j).mp hv2⟩
-  have B2 : VarsBij m'.tbl := by
+  have B2 : DmpVarsBij m'.tbl := by
     intro v l; rw [F2.vars, F2.l2v]; exact B1 v l
   refine ⟨roots', m', e1, I2, B2, F2.ctx.trans (C1.trans hc), ?_, ?_⟩
   · intro u n hn'
@@ -832,7 +832,7 @@ theorem pickle_load_of_specs (hF : FoaSpec) (J : Mgr → Prop) (f : PickleFile) 
 
 /-! ### `descendants` is closed under successors -/
 
-theorem mem_insertSorted (a x : Nat) (l : List Nat) : x ∈ insertSorted a l ↔ x = a ∨ x ∈ l := by
+theorem dmp_mem_insertSorted (a x : Nat) (l : List Nat) : x ∈ insertSorted a l ↔ x = a ∨ x ∈ l := by
   induction l with
   | nil => simp [insertSorted]
   | cons b l ih =>
@@ -843,11 +843,11 @@ theorem mem_insertSorted (a x : Nat) (l : List Nat) : x ∈ insertSorted a l ↔
       · rintro (h | h | h) <;> simp [h]
       · rintro (h | h | h) <;> simp [h]
 
-theorem mem_sortNat (x : Nat) (l : List Nat) : x ∈ sortNat l ↔ x ∈ l := by
+theorem dmp_mem_sortNat (x : Nat) (l : List Nat) : x ∈ sortNat l ↔ x ∈ l := by
   unfold sortNat
   induction l with
   | nil => simp
-  | cons a l ih => simp [List.foldr_cons, mem_insertSorted, ih]
+  | cons a l ih => simp [List.foldr_cons, dmp_mem_insertSorted, ih]
 
 /-- every listed non-terminal node has its successors listed -/
 def Closed (t : Tbl) (vis : List Nat) : Prop :=
@@ -864,7 +864,7 @@ theorem Closed.mono {t : Tbl} {vis vis' : List Nat} (h : Closed t vis) (hs : ∀
     exact ⟨n, hn, h2.imp id (hs _), h3.imp id (hs _)⟩
   · exact hnew r hr hin h1
 
-theorem descendantsF_spec (t : Tbl) :
+theorem dmp_descendantsF_spec (t : Tbl) :
     ∀ f u vis vis', descendantsF f t u vis = .ok vis' → Closed t vis →
       Closed t vis' ∧ (∀ x ∈ vis, x ∈ vis') ∧ (u.natAbs = 1 ∨ u.natAbs ∈ vis') := by
   intro f
@@ -910,7 +910,7 @@ theorem descendantsF_spec (t : Tbl) :
                   exact ⟨n, hn, m1'.imp id (List.mem_cons_of_mem _), m2.imp id (List.mem_cons_of_mem _)⟩
                 · exact absurd h' hnot
 
-theorem descendants_go_spec (t : Tbl) :
+theorem dmp_descendants_go_spec (t : Tbl) :
     ∀ roots vis vis', descendants.go t roots vis = .ok vis' → Closed t vis →
       Closed t vis' ∧ (∀ x ∈ vis, x ∈ vis') ∧ (∀ u ∈ roots, u.natAbs = 1 ∨ u.natAbs ∈ vis') ∧
       (roots ≠ [] → 1 ∈ vis') := by
@@ -947,7 +947,7 @@ theorem descendants_go_spec (t : Tbl) :
     | error e => simp [h1] at h
     | ok vis1 =>
       simp only [h1] at h
-      obtain ⟨c1, s1, m1⟩ := descendantsF_spec t _ _ _ _ h1 hc0
+      obtain ⟨c1, s1, m1⟩ := dmp_descendantsF_spec t _ _ _ _ h1 hc0
       obtain ⟨c2, s2, m2, _⟩ := ih _ _ h c1
       refine ⟨c2, fun x hx => s2 x (s1 x (hs0 x hx)), ?_, fun _ => s2 1 (s1 1 h10)⟩
       intro x hx
@@ -964,21 +964,21 @@ theorem descendants_spec (t : Tbl) (roots : List Int) (nodes : List Nat)
   | ok vis =>
     simp only [h1] at h
     cases h
-    obtain ⟨c, _, m, o⟩ := descendants_go_spec t roots [] vis h1 (by intro r hr; simp at hr)
+    obtain ⟨c, _, m, o⟩ := dmp_descendants_go_spec t roots [] vis h1 (by intro r hr; simp at hr)
     refine ⟨?_, ?_, ?_⟩
     · intro r hr h1'
-      rw [mem_sortNat] at hr
+      rw [dmp_mem_sortNat] at hr
       obtain ⟨n, hn, a, b⟩ := c r hr h1'
-      exact ⟨n, hn, a.imp id (by rw [mem_sortNat]; exact id), b.imp id (by rw [mem_sortNat]; exact id)⟩
-    · intro u hu; exact (m u hu).imp id (by rw [mem_sortNat]; exact id)
-    · intro hne; rw [mem_sortNat]; exact o hne
+      exact ⟨n, hn, a.imp id (by rw [dmp_mem_sortNat]; exact id), b.imp id (by rw [dmp_mem_sortNat]; exact id)⟩
+    · intro u hu; exact (m u hu).imp id (by rw [dmp_mem_sortNat]; exact id)
+    · intro hne; rw [dmp_mem_sortNat]; exact o hne
 
 
 /-! ### `_dump_bdd`: the content written -/
 
 /-- how the levels are named: inverse maps, no gaps, every level named -/
-structure VarsOK (t : Tbl) : Prop where
-  bij : VarsBij t
+structure DmpVarsOK (t : Tbl) : Prop where
+  bij : DmpVarsBij t
   contig : Contig t
   named : ∀ l, l < t.nvars → (t.l2v[l]?).isSome
 
@@ -1095,7 +1095,7 @@ theorem dumpPickle_parts {m : Mgr} {roots : Roots} {f : PickleFile} (h : dumpPic
 theorem roots_container {m : Mgr} {roots : Roots} {f : PickleFile} (h : dumpPickle m roots = .ok f) :
     f.roots = roots := (dumpPickle_parts h).2.1
 
-theorem nameAt_of_vars {t : Tbl} (hv : VarsOK t) {f : PickleFile} (hf : f.vars = t.vars.toList) :
+theorem nameAt_of_vars {t : Tbl} (hv : DmpVarsOK t) {f : PickleFile} (hf : f.vars = t.vars.toList) :
     (∀ var i, (var, i) ∈ f.vars → f.nameAt i = some var) ∧
     (∀ l x, t.l2v[l]? = some x → f.nameAt l = some x) := by
   have key : ∀ var i, (var, i) ∈ f.vars → f.nameAt i = some var := by
@@ -1149,7 +1149,7 @@ structure Stores (t : Tbl) (nodes : List Nat) (f : PickleFile) : Prop where
 
 /-- such a content is well formed -/
 theorem Stores.wf {t : Tbl} {nodes : List Nat} {f : PickleFile} (hst : Stores t nodes f)
-    (hw : WF t) (hv : VarsOK t) : PickleWF f := by
+    (hw : WF t) (hv : DmpVarsOK t) : PickleWF f := by
   obtain ⟨hvars, hcl, hin, hout⟩ := hst
   have hlen : f.vars.length = t.nvars := by rw [hvars]; exact length_vars_toList _
   have hfind : ∀ k e, PEntry.find f.succ k = some e → k ≠ 1 →
@@ -1195,7 +1195,7 @@ theorem Stores.wf {t : Tbl} {nodes : List Nat} {f : PickleFile} (hst : Stores t 
 
 /-- the dumped content denotes, by variable name, what the manager's references denote -/
 theorem Stores.eval {t : Tbl} {nodes : List Nat} {f : PickleFile} (hst : Stores t nodes f)
-    (hw : WF t) (hv : VarsOK t) (α : String → Bool) :
+    (hw : WF t) (hv : DmpVarsOK t) (α : String → Bool) :
     ∀ u : Int, (u.natAbs = 1 ∨ u.natAbs ∈ nodes) → evalPickle f u α = denBy t u α := by
   obtain ⟨hvars, hcl, hin, hout⟩ := hst
   have hlen : f.vars.length = t.nvars := by rw [hvars]; exact length_vars_toList _
@@ -1236,13 +1236,13 @@ theorem dumpPickle_stores {m : Mgr} (hI : Inv m) {roots : Roots} {f : PickleFile
   exact ⟨nodes, ⟨hvars, hcl, hin, fun k hk _ => hout k hk⟩, hroots⟩
 
 /-- the content `_dump_bdd` writes for a manager satisfying the invariant is well formed -/
-theorem dumpPickle_wf {m : Mgr} (hI : Inv m) (hv : VarsOK m.tbl) {roots : Roots} {f : PickleFile}
+theorem dumpPickle_wf {m : Mgr} (hI : Inv m) (hv : DmpVarsOK m.tbl) {roots : Roots} {f : PickleFile}
     (h : dumpPickle m roots = .ok f) : PickleWF f := by
   obtain ⟨nodes, hst, _⟩ := dumpPickle_stores hI h
   exact hst.wf hI.wf.toWF hv
 
 /-- the dumped content denotes, by variable name, what the manager's references denote -/
-theorem dumpPickle_eval {m : Mgr} (hI : Inv m) (hv : VarsOK m.tbl) {roots : Roots} {f : PickleFile}
+theorem dumpPickle_eval {m : Mgr} (hI : Inv m) (hv : DmpVarsOK m.tbl) {roots : Roots} {f : PickleFile}
     (h : dumpPickle m roots = .ok f) (α : String → Bool) :
     ∀ u ∈ roots.values, evalPickle f u α = denBy m.tbl u α := by
   obtain ⟨nodes, hst, hr⟩ := dumpPickle_stores hI h
@@ -1296,15 +1296,15 @@ def LoadedAs (src : Tbl) (roots : Roots) (tgt : Tbl) (roots' : Roots) : Prop :=
 Hypotheses beyond the invariants: the roots are a container (F2) of non-constant
 references (F11); the loader accepts the variables and leaves no level gap (F7); for
 `levels=False` the level map is increasing (F3). -/
-theorem pickle_roundtrip_of_specs (hF : FoaSpec) (hA : AddVarInv)
-    (src : Mgr) (hIs : Inv src) (hvs : VarsOK src.tbl)
+theorem pickle_roundtrip_of_specs (hF : DmpFoaSpec) (hA : AddVarInv)
+    (src : Mgr) (hIs : Inv src) (hvs : DmpVarsOK src.tbl)
     (roots : Roots) (hsome : roots ≠ .none) (hnc : ∀ u ∈ roots.values, u.natAbs ≠ 1)
     (f : PickleFile) (hd : dumpPickle src roots = .ok f)
-    (levels : Bool) (tgt : Mgr) (hI : Inv tgt) (hb : VarsBij tgt.tbl) (hc : tgt.ctx = false)
+    (levels : Bool) (tgt : Mgr) (hI : Inv tgt) (hb : DmpVarsBij tgt.tbl) (hc : tgt.ctx = false)
     (lm : List (Nat × Nat)) (m1 : Mgr)
     (hv : loadVars levels f.vars.length f.vars [] tgt = (.ok lm, m1))
     (hg : Contig m1.tbl) (hm : levels = false → MonoMap lm) :
-    ∃ roots' m', loadPickle f levels tgt = (.ok roots', m') ∧ Inv m' ∧ VarsBij m'.tbl ∧
+    ∃ roots' m', loadPickle f levels tgt = (.ok roots', m') ∧ Inv m' ∧ DmpVarsBij m'.tbl ∧
       (∀ u n, tgt.tbl.node? u = some n → m'.tbl.node? u = some n) ∧
       LoadedAs src.tbl roots m'.tbl roots' := by
   obtain ⟨roots', m', e, I, B, _, N, R⟩ :=
@@ -1339,15 +1339,15 @@ theorem loadVars_declared (levels : Bool) (n : Nat) :
     exact h'
 
 /-- C12, pickle, into a manager that already declares the variables at the same levels
-(in particular: into the SAME manager), either value of `levels`.  Only `FoaSpec` is used. -/
-theorem pickle_roundtrip_declared (hF : FoaSpec)
-    (src : Mgr) (hIs : Inv src) (hvs : VarsOK src.tbl)
+(in particular: into the SAME manager), either value of `levels`.  Only `DmpFoaSpec` is used. -/
+theorem pickle_roundtrip_declared (hF : DmpFoaSpec)
+    (src : Mgr) (hIs : Inv src) (hvs : DmpVarsOK src.tbl)
     (roots : Roots) (hsome : roots ≠ .none) (hnc : ∀ u ∈ roots.values, u.natAbs ≠ 1)
     (f : PickleFile) (hd : dumpPickle src roots = .ok f)
-    (levels : Bool) (tgt : Mgr) (hI : Inv tgt) (hb : VarsBij tgt.tbl) (hg : Contig tgt.tbl)
+    (levels : Bool) (tgt : Mgr) (hI : Inv tgt) (hb : DmpVarsBij tgt.tbl) (hg : Contig tgt.tbl)
     (hc : tgt.ctx = false)
     (hdecl : ∀ (var : String) (i : Nat), src.tbl.vars[var]? = some i → tgt.tbl.vars[var]? = some i) :
-    ∃ roots' m', loadPickle f levels tgt = (.ok roots', m') ∧ Inv m' ∧ VarsBij m'.tbl ∧
+    ∃ roots' m', loadPickle f levels tgt = (.ok roots', m') ∧ Inv m' ∧ DmpVarsBij m'.tbl ∧
       (∀ u n, tgt.tbl.node? u = some n → m'.tbl.node? u = some n) ∧
       LoadedAs src.tbl roots m'.tbl roots' := by
   obtain ⟨hvars, _, _⟩ := dumpPickle_parts hd
@@ -1386,11 +1386,11 @@ theorem pickle_roundtrip_declared (hF : FoaSpec)
   exact ⟨h1, fun α => by rw [h2 α, dumpPickle_eval hIs hvs hd α u hu]⟩
 
 /-- loading into the manager the file was dumped from -/
-theorem pickle_roundtrip_same_manager (hF : FoaSpec) (m : Mgr) (hI : Inv m) (hv : VarsOK m.tbl)
+theorem pickle_roundtrip_same_manager (hF : DmpFoaSpec) (m : Mgr) (hI : Inv m) (hv : DmpVarsOK m.tbl)
     (hc : m.ctx = false) (roots : Roots) (hsome : roots ≠ .none)
     (hnc : ∀ u ∈ roots.values, u.natAbs ≠ 1) (f : PickleFile) (hd : dumpPickle m roots = .ok f)
     (levels : Bool) :
-    ∃ roots' m', loadPickle f levels m = (.ok roots', m') ∧ Inv m' ∧ VarsBij m'.tbl ∧
+    ∃ roots' m', loadPickle f levels m = (.ok roots', m') ∧ Inv m' ∧ DmpVarsBij m'.tbl ∧
       (∀ u n, m.tbl.node? u = some n → m'.tbl.node? u = some n) ∧
       LoadedAs m.tbl roots m'.tbl roots' :=
   pickle_roundtrip_declared hF m hI hv roots hsome hnc f hd levels m hI hv.bij hv.contig hc
@@ -1421,16 +1421,16 @@ theorem NodeFree.addVar {m m' : Mgr} {var : String} {lvl : Option Int} {j : Nat}
   · subst h4; exact ⟨h.succ, h.pred, h.cache, h.free, h.ref1⟩
 
 /-- C12, pickle, into a FRESH manager (no nodes; variables, if any, compatible with what the
-loader declares).  Only `FoaSpec` is used. -/
-theorem pickle_roundtrip_fresh (hF : FoaSpec)
-    (src : Mgr) (hIs : Inv src) (hvs : VarsOK src.tbl)
+loader declares).  Only `DmpFoaSpec` is used. -/
+theorem pickle_roundtrip_fresh (hF : DmpFoaSpec)
+    (src : Mgr) (hIs : Inv src) (hvs : DmpVarsOK src.tbl)
     (roots : Roots) (hsome : roots ≠ .none) (hnc : ∀ u ∈ roots.values, u.natAbs ≠ 1)
     (f : PickleFile) (hd : dumpPickle src roots = .ok f)
-    (levels : Bool) (tgt : Mgr) (hN : NodeFree tgt) (hb : VarsBij tgt.tbl) (hc : tgt.ctx = false)
+    (levels : Bool) (tgt : Mgr) (hN : NodeFree tgt) (hb : DmpVarsBij tgt.tbl) (hc : tgt.ctx = false)
     (lm : List (Nat × Nat)) (m1 : Mgr)
     (hv : loadVars levels f.vars.length f.vars [] tgt = (.ok lm, m1))
     (hg : Contig m1.tbl) (hm : levels = false → MonoMap lm) :
-    ∃ roots' m', loadPickle f levels tgt = (.ok roots', m') ∧ Inv m' ∧ VarsBij m'.tbl ∧
+    ∃ roots' m', loadPickle f levels tgt = (.ok roots', m') ∧ Inv m' ∧ DmpVarsBij m'.tbl ∧
       LoadedAs src.tbl roots m'.tbl roots' := by
   obtain ⟨roots', m', e, I, B, _, _, R⟩ :=
     pickle_load_of_specs hF NodeFree f levels (fun m var _ j m' _ hJ h => hJ.addVar h)
@@ -1473,7 +1473,7 @@ theorem ofList_toList_getElem? {α β : Type} [Ord α] [TransOrd α] [LawfulEqOr
     cases hkv
 
 
-theorem addVar_new (m : Mgr) (v : String) (l : Nat) (h1 : m.tbl.vars[v]? = none)
+theorem dmp_addVar_new (m : Mgr) (v : String) (l : Nat) (h1 : m.tbl.vars[v]? = none)
     (h2 : m.tbl.l2v[l]? = none) :
     addVar v (some (l : Int)) m = (.ok l, { m with tbl := { m.tbl with
       vars := m.tbl.vars.insert v l, l2v := m.tbl.l2v.insert l v } }) := by
@@ -1511,7 +1511,7 @@ theorem addVars_spec : ∀ (vs : List (String × Nat)) (m0 : Mgr),
     obtain ⟨hx, hp'⟩ := hp
     rw [addVars]
     dsimp only
-    rw [addVar_new m0 v l f1 f2]
+    rw [dmp_addVar_new m0 v l f1 f2]
     dsimp only
     have hfree' : ∀ v' l', (v', l') ∈ rest →
         (m0.tbl.vars.insert v l)[v']? = none ∧ (m0.tbl.l2v.insert l v)[l']? = none := by
@@ -1561,7 +1561,7 @@ theorem addVars_spec : ∀ (vs : List (String × Nat)) (m0 : Mgr),
         simp [c1, this]
 
 
-theorem toList_pairwise (t : Tbl) (hb : VarsBij t) :
+theorem toList_pairwise (t : Tbl) (hb : DmpVarsBij t) :
     t.vars.toList.Pairwise (fun a b => a.1 ≠ b.1 ∧ a.2 ≠ b.2) := by
   apply List.Pairwise.imp_of_mem _ (TreeMap.distinct_keys_toList (t := t.vars))
   intro a b ha hb' hne
@@ -1579,7 +1579,7 @@ theorem toList_pairwise (t : Tbl) (hb : VarsBij t) :
   cases y
   exact h1 rfl
 
-theorem validOrdering_toList (t : Tbl) (hv : VarsOK t) : validOrdering t.vars.toList = true := by
+theorem validOrdering_toList (t : Tbl) (hv : DmpVarsOK t) : validOrdering t.vars.toList = true := by
   unfold validOrdering
   simp only [Bool.and_eq_true, List.all_eq_true, decide_eq_true_eq]
   rw [length_vars_toList]
@@ -1596,7 +1596,7 @@ theorem validOrdering_toList (t : Tbl) (hv : VarsOK t) : validOrdering t.vars.to
     exact hv.contig v l (TreeMap.mem_toList_iff_getElem?_eq_some.mp hm)
 
 /-- the constructor called on the variable table of a manager rebuilds both views -/
-theorem mkBDD_toList (t : Tbl) (hv : VarsOK t) :
+theorem mkBDD_toList (t : Tbl) (hv : DmpVarsOK t) :
     ∃ m0, mkBDD t.vars.toList = .ok m0 ∧ (∀ v : String, m0.tbl.vars[v]? = t.vars[v]?) ∧
       (∀ l : Nat, m0.tbl.l2v[l]? = t.l2v[l]?) ∧ SameRest {} m0 := by
   obtain ⟨m1, e1, V1, L1, S1⟩ := addVars_spec t.vars.toList {} (toList_pairwise t hv.bij)
@@ -1633,17 +1633,17 @@ structure MgrStored (m m' : Mgr) : Prop where
   lastLen : m'.lastLen = none
   ctx : m'.ctx = false
 
-theorem nd?_nodeEntry (x : Nat × Nd) : (nodeEntry x).nd? = some x := by
+theorem nd?_nodeEntry (x : Nat × Nd) : (dumpNodeEntry x).nd? = some x := by
   obtain ⟨u, n⟩ := x
   rfl
 
-theorem filterMap_nd?_nodes (l : List (Nat × Nd)) : (l.map nodeEntry).filterMap PEntry.nd? = l := by
+theorem filterMap_nd?_nodes (l : List (Nat × Nd)) : (l.map dumpNodeEntry).filterMap PEntry.nd? = l := by
   induction l with
   | nil => rfl
   | cons x xs ih => simp [List.filterMap_cons, nd?_nodeEntry, ih]
 
 theorem filter_none_nodes (l : List (Nat × Nd)) :
-    (l.map nodeEntry).filter (fun e => e.nd?.isNone) = [] := by
+    (l.map dumpNodeEntry).filter (fun e => e.nd?.isNone) = [] := by
   rw [List.filter_eq_nil_iff]
   intro e he
   rw [List.mem_map] at he
@@ -1677,7 +1677,7 @@ theorem pred_roundtrip (l : List (List Int × Nat)) (h : ∀ x ∈ l, ∃ n : Nd
 /-- C12: a whole-manager pickle reproduces the manager (`loadManager (dumpManager m)` equals
 `m` on every stored field; the computed table is empty and reordering is off, as in
 any new manager) -/
-theorem manager_roundtrip (m : Mgr) (hv : VarsOK m.tbl) (hp : PredShape m) :
+theorem manager_roundtrip (m : Mgr) (hv : DmpVarsOK m.tbl) (hp : PredShape m) :
     ∃ m', loadManager (dumpManager m) = .ok m' ∧ MgrStored m m' := by
   obtain ⟨m0, e0, V0, L0, S0⟩ := mkBDD_toList m.tbl hv
   have hpl : ∀ x ∈ m.pred.toList, ∃ n : Nd, x.1 = n.key := by
@@ -1724,7 +1724,7 @@ roots — returns them in the same container shape denoting, by variable name, w
 says.  No condition on `levels`, on constant roots, or on `roots` being present. -/
 def pickle_load_statement : Prop :=
   ∀ (f : PickleFile) (levels : Bool) (tgt : Mgr), PickleWF f → RootsResolvable f →
-    Inv tgt → VarsBij tgt.tbl → tgt.ctx = false →
+    Inv tgt → DmpVarsBij tgt.tbl → tgt.ctx = false →
     ∀ lm m1, loadVars levels f.vars.length f.vars [] tgt = (.ok lm, m1) → Contig m1.tbl →
     ∃ roots' m', loadPickle f levels tgt = (.ok roots', m') ∧ Inv m' ∧
       (f.roots ≠ .none →
@@ -1751,7 +1751,7 @@ theorem wf_terminal_only (r : Roots) : PickleWF { vars := [], succ := [⟨1, 0, 
   · intro k e h h1; exact absurd (hf k e h) h1
 
 
-theorem varsBij_empty : VarsBij ({} : Mgr).tbl := by
+theorem varsBij_empty : DmpVarsBij ({} : Mgr).tbl := by
   intro v l
   show ({} : TreeMap String Nat)[v]? = some l ↔ ({} : TreeMap Nat String)[l]? = some v
   simp
@@ -1761,7 +1761,7 @@ theorem contig_empty : Contig ({} : Mgr).tbl := by
   have : ({} : TreeMap String Nat)[v]? = some l := h
   simp at this
 
-theorem varsOK_empty : VarsOK ({} : Mgr).tbl :=
+theorem varsOK_empty : DmpVarsOK ({} : Mgr).tbl :=
   ⟨varsBij_empty, contig_empty, by
     intro l h
     have h0 : ({} : Mgr).tbl.nvars = 0 := by decide +kernel
@@ -1836,7 +1836,7 @@ theorem mgr2_l2v (x y : String) (l : Nat) :
     · have c2 : compare 0 l ≠ .eq := fun h => h2 (compare_eq_iff_eq.mp h).symm
       simp [c1, c2, h1, h2]
 
-theorem mgr2_bij (x y : String) (hxy : x ≠ y) : VarsBij (mgr2 x y).tbl := by
+theorem mgr2_bij (x y : String) (hxy : x ≠ y) : DmpVarsBij (mgr2 x y).tbl := by
   intro v l
   rw [mgr2_vars, mgr2_l2v]
   by_cases h1 : v = y <;> by_cases h2 : v = x <;> by_cases h3 : l = 1 <;> by_cases h4 : l = 0 <;>
@@ -1863,7 +1863,7 @@ abbrev mgrBA : Mgr := mgr2 "b" "a"
 theorem mgrAB_nodeFree : NodeFree mgrAB := mgr2_nodeFree _ _
 theorem mgrAB_vars (v : String) :
     mgrAB.tbl.vars[v]? = if v = "b" then some 1 else if v = "a" then some 0 else none := mgr2_vars _ _ v
-theorem mgrAB_bij : VarsBij mgrAB.tbl := mgr2_bij _ _ (by decide)
+theorem mgrAB_bij : DmpVarsBij mgrAB.tbl := mgr2_bij _ _ (by decide)
 theorem mgrAB_contig : Contig mgrAB.tbl := mgr2_contig _ _ (by decide)
 
 theorem fileBA_wf : PickleWF fileBA := by
@@ -2113,7 +2113,7 @@ theorem dumpJson_stores {m : Mgr} {roots : Roots} {f : JsonFile} (h : dumpJson m
 
 /-- the JSON content `dump_json` writes is well formed and denotes, by variable name, what
 the manager's references denote; the roots container is stored as given -/
-theorem dumpJson_spec {m : Mgr} (hI : Inv m) (hv : VarsOK m.tbl) {roots : Roots} {f : JsonFile}
+theorem dumpJson_spec {m : Mgr} (hI : Inv m) (hv : DmpVarsOK m.tbl) {roots : Roots} {f : JsonFile}
     (h : dumpJson m roots = .ok f) :
     PickleWF f.toPickle ∧ f.roots = roots ∧
     ∀ α, ∀ u ∈ roots.values, evalJson f u α = denBy m.tbl u α := by
@@ -2203,19 +2203,19 @@ theorem dumpJson_childrenFirst {m : Mgr} {roots : Roots} {f : JsonFile}
   exact j.order
 
 /-- number of edges into node `u` -/
-def indeg (t : Tbl) (u : Nat) : Nat :=
+def dmp_indeg (t : Tbl) (u : Nat) : Nat :=
   t.succ.toList.foldl (fun acc x =>
     acc + (if x.2.lo.natAbs = u then 1 else 0) + (if x.2.hi.natAbs = u then 1 else 0)) 0
 
 /-- reference counts are at least the in-degrees (part of the exact-count invariant of C06) -/
 def RefGeIndeg (m : Mgr) : Prop :=
-  ∀ (u : Nat) (n : Nd), m.tbl.node? u = some n → ∃ c, m.ref[u]? = some c ∧ indeg m.tbl u ≤ c
+  ∀ (u : Nat) (n : Nd), m.tbl.node? u = some n → ∃ c, m.ref[u]? = some c ∧ dmp_indeg m.tbl u ≤ c
 
 /-- the receiving manager of a JSON load: invariant, named contiguous levels, exact unique
 table, counts covering the in-degrees, not inside a reordering context -/
 structure JsonTarget (m : Mgr) : Prop where
   inv : Inv m
-  vars : VarsOK m.tbl
+  vars : DmpVarsOK m.tbl
   pred : PredShape m
   refs : RefGeIndeg m
   ctx : m.ctx = false
@@ -2237,7 +2237,7 @@ def json_load_statement : Prop :=
 /-- C12, JSON round trip at full strength -/
 def json_roundtrip_statement : Prop :=
   ∀ (src : Mgr) (roots : Roots) (f : JsonFile) (loadOrder : Bool) (tgt : Mgr),
-    Inv src → VarsOK src.tbl → dumpJson src roots = .ok f → JsonTarget tgt →
+    Inv src → DmpVarsOK src.tbl → dumpJson src roots = .ok f → JsonTarget tgt →
     (loadOrder = true → ∀ v : String, tgt.tbl.vars.contains v = true → src.tbl.vars.contains v = true) →
     ∃ sched roots' m', loadJson f loadOrder { tgt with sched := sched } = (.ok roots', m') ∧ Inv m' ∧
       LoadedAs src.tbl roots m'.tbl roots'
